@@ -207,10 +207,17 @@ func (w *World) buildTasks() error {
 				return fmt.Errorf("loadTasks built no task for %s/%s", s.Name, ig.Name)
 			}
 			delete(byKey, s.Name+"/"+ig.Name)
-			if ti := task.VerifInfo(); ti.Start != sr.Start || ti.Stop != sr.Stop || ti.ChainID != s.ChainID {
-				return fmt.Errorf("loadTasks built %+v for %s/%s (configured start %d stop %d batch %d chain %d)", ti, s.Name, ig.Name, sr.Start, sr.Stop, s.Batch, s.ChainID)
+			// the range as DECLARED (not as shovel parsed it)
+			wantStart, wantStop := uint64(sr.Start), uint64(sr.Stop)
+			for _, ds := range w.decls[i].Sources {
+				if ds.Name == sr.Name {
+					wantStart, wantStop = ds.Start, ds.Stop
+				}
 			}
-			p := &Pair{Src: s, Decl: w.decls[i].WithRequired(), Start: sr.Start, Stop: sr.Stop, task: task, ig: ig}
+			if ti := task.VerifInfo(); ti.Start != wantStart || ti.Stop != wantStop || ti.ChainID != s.ChainID {
+				return fmt.Errorf("loadTasks built %+v for %s/%s (configured start %d stop %d batch %d chain %d)", ti, s.Name, ig.Name, wantStart, wantStop, s.Batch, s.ChainID)
+			}
+			p := &Pair{Src: s, Decl: w.decls[i].WithRequired(), Start: wantStart, Stop: wantStop, task: task, ig: ig}
 			if o := old[p.Key()]; o != nil {
 				p.First, p.FirstSet, p.Steps, p.OKSteps, p.Done = o.First, o.FirstSet, o.Steps, o.OKSteps, o.Done
 			}
